@@ -1,0 +1,7 @@
+//go:build verif
+
+package connection
+
+import "github.com/openconfig/gnmi/verifhook"
+
+func verifPoint(name string, key interface{}) { verifhook.Point(name, key) }
